@@ -121,6 +121,7 @@ func (H) Gen(prop string, rng *rand.Rand, tier string) *core.Plan {
 	p.Cfg["maporder"] = rng.Intn(2) // tape-chosen iteration order of Go maps in the code under test
 	p.Cfg["fieldmodes"] = rng.Intn(2)
 	if prop == "C11" {
+		p.Cfg["multi"] = rng.Intn(2) // statements may select two columns
 		p.Cfg["families"] = 1 + rng.Intn(2) // points of one or two hours: one or two data families per shard
 	}
 	return p
@@ -133,6 +134,7 @@ type run struct {
 	shards  int
 	series  []seriesDef
 	shardOf []int
+	route   bool // writes are split by lindb's broker-side routing (hash -> shard, timestamp -> family)
 	points  []point
 	flushes int
 	epoch   int
@@ -223,11 +225,16 @@ func (r *run) write(op core.Op) {
 	byShard := map[int][]rows.Point{}
 	// field modes (new plans): a write may carry only the first one or two fields, so files whose metric block
 	// has a single field (a layout of its own) and files with other field sets meet in queries and compactions
-	limit := len(fieldSpecs)
+	limit, only := len(fieldSpecs), -1
 	if r.c.Plan.C("fieldmodes", 0) == 1 {
-		if m := rand.New(rand.NewSource(atoi(op.S) ^ 0x5eed)).Intn(4); m < 2 {
+		mrng := rand.New(rand.NewSource(atoi(op.S) ^ 0x5eed))
+		if m := mrng.Intn(4); m < 2 {
 			limit = 1 + m
 			r.c.Sim.Probe(fmt.Sprintf("write-with-%d-fields", limit))
+		} else if m == 2 && r.c.Plan.C("multi", 0) == 1 {
+			// one field only, and not the first: a flushed block whose single field is a later one of the metric
+			only = 1 + mrng.Intn(len(fieldSpecs)-1)
+			r.c.Sim.Probe("write-with-one-later-field")
 		}
 	}
 	for i := int64(0); i < op.A; i++ {
@@ -242,7 +249,11 @@ func (r *run) write(op core.Op) {
 			if fi >= limit {
 				break
 			}
-			if rng.Intn(3) == 0 && len(fs) > 0 {
+			if only >= 0 {
+				if fi != only {
+					continue
+				}
+			} else if rng.Intn(3) == 0 && len(fs) > 0 {
 				continue
 			}
 			v := float64(1 + rng.Intn(40))
@@ -250,6 +261,19 @@ func (r *run) write(op core.Op) {
 			r.points = append(r.points, point{series: si, field: fi, ts: ts, value: v, order: len(r.points), epoch: r.epoch})
 		}
 		byShard[r.shardOf[si]] = append(byShard[r.shardOf[si]], rows.Point{Name: "m", Tags: r.series[si].tags(), Timestamp: ts, Fields: fs})
+	}
+	if r.route {
+		// the batch goes the broker's way: lindb's routing hash picks the shard of every row and its batch
+		// iterators cut the rows of a shard into families
+		var all []rows.Point
+		for sh := 0; sh < r.shards; sh++ {
+			all = append(all, byShard[sh]...)
+		}
+		if err := r.n.WriteRouted(r.db, r.shards, all); err != nil {
+			r.c.Anomaly("routed write: %v", err)
+		}
+		r.c.Sim.Probe("write-routed-by-hash")
+		return
 	}
 	for sh := 0; sh < r.shards; sh++ {
 		if len(byShard[sh]) == 0 {
@@ -507,6 +531,17 @@ type queryDef struct {
 	start    int64
 	end      int64
 	fn       string // "", or a function on the sum field: sum, min, max (down-sampling and merge of series by that function)
+	// a second select item (plans with cfg multi=1): another field, or another function of the sum field
+	two    bool
+	field2 int
+	fn2    string
+}
+
+// second returns the query seen from its second select item.
+func (q queryDef) second() queryDef {
+	q2 := q
+	q2.field, q2.fn, q2.two = q.field2, q.fn2, false
+	return q2
 }
 
 // column is the name of the selected column in the statement and in the result.
@@ -519,7 +554,11 @@ func (q queryDef) column() string {
 
 func (q queryDef) sql() string {
 	var sb strings.Builder
-	fmt.Fprintf(&sb, "select %s from m where ", q.column())
+	cols := q.column()
+	if q.two {
+		cols += "," + q.second().column()
+	}
+	fmt.Fprintf(&sb, "select %s from m where ", cols)
 	if q.cond != nil {
 		sb.WriteString(q.cond.sql() + " and ")
 	}
@@ -540,7 +579,27 @@ func fmtTime(ms int64) string {
 	return fmt.Sprintf("2000-01-01 %02d:%02d:%02d", s/3600, (s/60)%60, s%60)
 }
 
-func genQuery(rng *rand.Rand, prop string, fams int) queryDef {
+func genQuery(rng *rand.Rand, prop string, fams int, multi ...bool) queryDef {
+	q := genQuery1(rng, prop, fams)
+	if len(multi) > 0 && multi[0] && prop != "C10" && rng.Intn(3) == 0 {
+		// (drawn after everything else: the first item of a statement is the same with and without this)
+		q.two = true
+		if q.field == 0 && rng.Intn(2) == 0 {
+			// two functions of the sum field in one statement
+			for {
+				q.field2, q.fn2 = 0, []string{"", "sum", "min", "max"}[rng.Intn(4)]
+				if q.fn2 != q.fn {
+					break
+				}
+			}
+		} else {
+			q.field2 = (q.field + 1 + rng.Intn(len(fieldSpecs)-1)) % len(fieldSpecs)
+		}
+	}
+	return q
+}
+
+func genQuery1(rng *rand.Rand, prop string, fams int) queryDef {
 	q := queryDef{field: rng.Intn(len(fieldSpecs))}
 	if prop == "C10" {
 		q.field = 0
@@ -651,7 +710,7 @@ func aggregate(agg string, ps []point) (float64, []float64) {
 func (r *run) query(op core.Op, duringFlush bool) {
 	c := r.c
 	rng := rand.New(rand.NewSource(atoi(op.S)))
-	q := genQuery(rng, c.Plan.Prop, c.Plan.C("families", 1))
+	q := genQuery(rng, c.Plan.Prop, c.Plan.C("families", 1), c.Plan.C("multi", 0) == 1)
 	sqlText := q.sql()
 	before := len(r.points) // every write completed before the query started
 	flushDone := true
@@ -677,6 +736,9 @@ func (r *run) query(op core.Op, duringFlush bool) {
 	for extra := 0; duringFlush && !flushDone && extra < 2 && err == nil; extra++ {
 		exp0 := r.expected(q, before)
 		r.compare(sqlText+" [asked again during the flush]", q, exp0, rs)
+		if q.two && !c.Violated() {
+			r.compare(sqlText+" [asked again during the flush, 2nd column]", q.second(), r.expected(q.second(), before), rs)
+		}
 		if c.Violated() {
 			return
 		}
@@ -687,6 +749,22 @@ func (r *run) query(op core.Op, duringFlush bool) {
 	c.Oracle()
 	exp := r.expected(q, before)
 	prop := c.Plan.Prop
+	if err != nil && q.two {
+		// a statement that names a field no written point carries is rejected like one naming an unknown column
+		for _, qq := range []queryDef{q, q.second()} {
+			written := false
+			for _, p := range r.points[:before] {
+				written = written || p.field == qq.field
+			}
+			if !written && strings.Contains(err.Error(), "not found") {
+				c.Sim.Probe("unknown-field")
+				return
+			}
+		}
+		if len(exp) == 0 {
+			exp = r.expected(q.second(), before) // "not found" is right only when neither column has data
+		}
+	}
 	if err != nil {
 		// a tag key that no written series of the metric carries is unknown to the schema: the statement is
 		// rejected like one naming an unknown column
@@ -710,6 +788,9 @@ func (r *run) query(op core.Op, duringFlush bool) {
 		return
 	}
 	r.compare(sqlText, q, exp, rs)
+	if q.two && !c.Violated() {
+		r.compare(sqlText+" [2nd column]", q.second(), r.expected(q.second(), before), rs)
+	}
 	if c.Violated() && os.Getenv("VERIF_TRACE") != "" {
 		for _, p := range r.points[:before] {
 			if p.field == q.field {
